@@ -38,6 +38,25 @@ def run(ctx, rep):
     reps = {"aux-same": comp("Aux", idv, service="NEPB"), "aux-other": comp("Aux", X, service="NEPB"),
             "used-same": comp("Used", idv, carrier="ELECTRICIDAD"), "prod-same": comp("Prod", idv, source="EL_INSITU"),
             "out-same": comp("Out", idv)}
+    # A0: the systems visited are exactly those with auxiliary components (whatever their other fields)
+    src = info["iter"]
+    base = src.a[0] if src.op in ("iter", "into_iter") else src
+    okset = base.op == "collect_set"
+    preds = []
+    cur = base.a[0] if okset else base
+    while cur.op in ("map", "filter", "cloned", "copied"):
+        if cur.op == "filter":
+            preds.append(cur.a[1])
+        cur = cur.a[0]
+    sel = dict((k, tm.and_(*[tm.apply_lam(p, [c]) for p in preds]) if preds else tm.TRUE) for k, c in reps.items())
+    ok0 = okset and preds and sel["aux-same"] is tm.TRUE and sel["aux-other"] is tm.TRUE and \
+        all(sel[k] is tm.FALSE for k in ("used-same", "prod-same", "out-same"))
+    if ok0:
+        rep.discharged("C06/A0/systems", "every system with an auxiliary component is visited once, and only those")
+    else:
+        rep.violated("C06/A0/systems", "every auxiliary component (whatever its comment, values or service) takes part in the reassignment of its system",
+                     construct=where, why="ids iterated: set=%s; selection on class representatives: %s" %
+                     (okset, "; ".join("%s:%s" % (k, tm.show(v, 3)[:60]) for k, v in sel.items())))
     # A1
     rets = find_ops(n, "retain")
     if not rets:
